@@ -10,7 +10,7 @@ from props.c05 import noisy
 
 RULE = ("equilibrium / noisy Voronoi and Moebius tissues, jittered and exact square lattices (four-fold junctions) with random "
         "cell-cycle shifts and relabelling, angle limits 0.5*pi..pi and the defaults, static mode, default and 'lsq' back-ends "
-        "with user-supplied initial conditions; non-trivial = at least one interface is excluded; distinct = (tissue, limit, method)")
+        "with user-supplied initial conditions; every tissue also as a scan of the limit on one object (assembled and solved with lower limits first, then a higher one; and back down); non-trivial = at least one interface is excluded; distinct = (tissue, limit, method)")
 TRUSTED = ["Model/ForceSys.v angle_limited_edges / reinsert tied to fmatrix.get_angle_limited_edges / get_solution_no_discarded by "
            "exact correspondence; Model/AngleLimit.v flagged_junctions (all pairs of directions, clipped dot <= cos(limit)) tied to fm.deletes by a "
            "PrimFloat correspondence on the implementation's versors (circle fit, arccos and cos are oracles)"]
@@ -22,12 +22,23 @@ TESTED_NOT_PROVED = ["'every other position holds the solution of the restricted
 IMPORTS = "From Forsys Require Import Model.Num Model.CaseUtil Model.PyList Model.ForceSys Model.AngleLimit.\n"
 
 
-def check_case(res, spec, limit, method, exprs, label):
+def check_case(res, spec, limit, method, exprs, label, prior=()):
+    """`prior`: limits with which the same frame was assembled (and solved) before - what is excluded must depend on the last limit only"""
     fr = impl.frame(spec)
     f = impl.forsys_of({0: fr})
-    replay = {"spec": {k: spec[k] for k in ("vertices", "edges", "cells")}, "limit": limit, "method": method, "label": label}
+    replay = {"spec": {k: spec[k] for k in ("vertices", "edges", "cells")}, "limit": limit, "method": method, "label": label, "prior": list(prior)}
     kw = {} if limit is None else {"angle_limit": limit}
     lim = math.pi if limit is None else limit
+    for k_, pl in enumerate(prior):
+        try:
+            with impl.quiet():
+                f.build_force_matrix(when=0, **({} if pl is None else {"angle_limit": pl}))
+                if k_ % 2 == 0:
+                    f.solve_stress(when=0, allow_negatives=False)
+        except Exception:  # noqa  (the earlier assemblies are judged as cases of their own)
+            pass
+    if prior:
+        res.count("frame assembled with other limits before (scan on one object)")
     try:
         with impl.quiet():
             f.build_force_matrix(when=0, **kw)
@@ -74,7 +85,7 @@ def check_case(res, spec, limit, method, exprs, label):
             bad.append(f"{len(got_used)} interfaces used, expected {len(exp_used)} (excluded positions {exp_excl[:5]})")
         if limit is None and exp_excl:
             bad.append("default limit excludes interfaces")
-    res.case((tuple(tuple(x[1:]) for x in spec["vertices"][:5]), len(spec["cells"]), limit, method), nontrivial=bool(exp_excl))
+    res.case((tuple(tuple(x[1:]) for x in spec["vertices"][:5]), len(spec["cells"]), limit, method, tuple(prior)), nontrivial=bool(exp_excl))
     res.count(f"limit={'default' if limit is None else round(limit / math.pi, 2)}pi")
     res.count(f"excluded={min(len(exp_excl), 5)}{'+' if len(exp_excl) >= 5 else ''}")
     M = np.array(fm.matrix, dtype=float)
@@ -185,6 +196,11 @@ def run(res, tier, seed):
             res.count("limit equal to a junction's widest opening")
         for lim in lims:
             check_case(res, spec, lim, "lsq" if rng.random() < 0.35 else None, exprs, label)
+        # scans of the limit on one object: increasing (the excluded set shrinks), and back down
+        asc = sorted(l_ for l_ in lims if l_ is not None)
+        check_case(res, spec, asc[1], None, exprs, label + "/scan-up", prior=asc[:1])
+        check_case(res, spec, asc[2], "lsq" if rng.random() < 0.35 else None, exprs, label + "/scan-up", prior=asc[:2])
+        check_case(res, spec, asc[0], None, exprs, label + "/scan-down", prior=[asc[-1], None])
     bools, outs = C.coq_eval_bools("C16", IMPORTS, [e for e, _ in exprs], chunk=20)
     for (e, rp), b in zip(exprs, bools):
         res.traces += 1
@@ -200,6 +216,7 @@ def search(res, tier, seed, broken):
     for spec, label in tissues(rng, "thorough"):
         for lim in (None, 0.6 * math.pi, 0.75 * math.pi, 0.9 * math.pi):
             check_case(r2, spec, lim, None, sink, label)
+        check_case(r2, spec, 0.9 * math.pi, None, sink, label, prior=[0.6 * math.pi, 0.75 * math.pi])
         if [f for f in r2.failures if f["kind"] == "oracle" and not f.get("tag")] or r2.evaluations > 150:
             break
     res.failures.extend(f for f in r2.failures if f["kind"] == "oracle")
@@ -211,7 +228,7 @@ def replay(res, obj):
     if "case" in inp:
         inp = inp["case"]
     sink = []
-    check_case(res, inp["spec"], inp["limit"], inp["method"], sink, "replay")
+    check_case(res, inp["spec"], inp["limit"], inp["method"], sink, "replay", prior=inp.get("prior", ()))
     bools, _ = C.coq_eval_bools("C16r", IMPORTS, [e for e, _ in sink], chunk=20)
     for (e, rp), b in zip(sink, bools):
         if b is not True:
